@@ -63,25 +63,48 @@ def rule_ctor(facts, rep):
         except Unrecognised as ex:
             ok, why = False, f"not evaluable: {ex}"
         rep.check(ok, "ctor", b["path"], f"{k}→{v[0]}", why, loc(b))
-    n = facts.body("anstream", A + "never")
-    rep.fn(n["path"])
-    st = hir.stmts_of(n["hir"])
-    inner = hir.simp(st[0]["init"]) if st and st[0].get("k") == "let" else {}
-    ok = inner.get("ctor") == AI + "::Strip" and hir.is_call(hir.simp(inner["args"][0]), "anstream::strip::StripStream::<S>::new") and \
-        hir.is_local(hir.simp(inner["args"][0])["args"][0], "raw")
-    tail = hir.simp(st[-1]) if st else {}
-    ok = ok and tail.get("k") == "struct" and hir.is_local(tail["fields"][0]["e"], st[0]["pat"].get("name"))
-    rep.check(ok, "ctor", n["path"], "builds-Strip(StripStream::new(raw))", "", loc(n))
-    p = facts.body("anstream", A + "always_ansi_")
-    rep.fn(p["path"])
-    st = hir.stmts_of(p["hir"])
-    inner = hir.simp(st[0]["init"]) if st and st[0].get("k") == "let" else {}
-    ok = inner.get("ctor") == AI + "::PassThrough" and hir.is_local(inner["args"][0], "raw")
-    rep.check(ok, "ctor", p["path"], "builds-PassThrough(raw)", "", loc(p))
-    aa = facts.body("anstream", A + "always_ansi")
-    rep.fn(aa["path"])
-    tail = hir.simp(hir.stmts_of(aa["hir"])[-1])
-    rep.check(hir.is_call(tail, A + "always_ansi_") and hir.is_local(tail["args"][0], "raw"), "ctor", aa["path"], "ends-in-always_ansi_(raw)", "", loc(aa))
+    # the leaf constructors by abstract evaluation on a symbolic stream (temporaries, `Self { .. }` vs `AutoStream { .. }`, a named
+    # constructor instead of `Default::default()` are all the same value)
+    RAW = ("sym", "raw")
+    INL = ("anstream", "anstyle_parse")
+
+    def value(path, atoms=None):
+        rs = ac.eval_all(facts, "anstream", path, [RAW], INL, atoms)
+        vals = {repr(r) for _c, r in rs}
+        if len(vals) != 1:
+            raise Unrecognised(f"{path} builds different values on different paths")
+        return rs[0][1]
+
+    def decided(path, key, fn_):
+        b_ = facts.body("anstream", path)
+        rep.fn(b_["path"])
+        try:
+            ok, why = fn_()
+        except Unrecognised as ex:
+            ok, why = False, f"not evaluable: {ex}"
+        rep.check(ok, "ctor", b_["path"], key, str(why)[:200], loc(b_))
+    SN = "anstream::strip::StripStream::<S>::new"
+
+    def never_():
+        v = value(A + "never")
+        return v == ("rec", {"inner": ("ctor", AI + "::Strip", value(SN))}), v
+    decided(A + "never", "builds-Strip(StripStream::new(raw))", never_)
+
+    def pass_():
+        v = value(A + "always_ansi_")
+        return v == ("rec", {"inner": ("ctor", AI + "::PassThrough", RAW)}), v
+    decided(A + "always_ansi_", "builds-PassThrough(raw)", pass_)
+
+    def ansi_():
+        rs = ac.eval_all(facts, "anstream", A + "always_ansi", [RAW], ("anstream",), tagged("always_ansi_"))
+        return all(r == ("made-by", "always_ansi_", RAW) for _c, r in rs) and bool(rs), [r for _c, r in rs][:2]
+    decided(A + "always_ansi", "ends-in-always_ansi_(raw)", ansi_)
+
+    def strip_new():
+        v = value(SN)
+        fresh = ac.eval_all(facts, "anstream", "<anstream::adapter::strip::StripBytes as core::default::Default>::default", [], INL)[0][1]
+        return v == ("rec", {"raw": RAW, "state": fresh}), v
+    decided(SN, "wraps-raw-with-fresh-state", strip_new)
     al = facts.body("anstream", A + "always")
     rep.fn(al["path"])
     try:
@@ -94,14 +117,6 @@ def rule_ctor(facts, rep):
     w = facts.body("anstream", A + "wincon")
     e = ac.single_expr(w["hir"])
     rep.check(e.get("ctor", "").endswith("Result::Err") and hir.is_local(e["args"][0], "raw"), "ctor", w["path"], "Err(raw)-on-this-target", "", loc(w))
-    sn = facts.body("anstream", "anstream::strip::StripStream::<S>::new")
-    rep.fn(sn["path"])
-    e = ac.single_expr(sn["hir"])
-    ok = e.get("k") == "struct"
-    if ok:
-        f = {x["name"]: hir.simp(x["e"]) for x in e["fields"]}
-        ok = hir.is_local(f.get("raw"), "raw") and hir.is_call(f.get("state", {}), "Default::default")
-    rep.check(ok, "ctor", sn["path"], "wraps-raw-with-fresh-state", "", loc(sn))
     au = facts.body("anstream", A + "auto")
     rep.fn(au["path"])
     lets = {s["pat"]["name"]: s["init"] for s in hir.stmts_of(au["hir"]) if s.get("k") == "let" and s["pat"].get("k") == "pbind"}
